@@ -151,7 +151,7 @@ func (fr *FuncRun) callInvoke(f *Frame, st *State, c *ssa.CallCommon, name strin
 	if h, ok := fr.specialInvoke(f, st, c, recv, args, pos); ok {
 		return h
 	}
-	if ec := fr.eng.contracts.externs[full]; ec != nil {
+	if ec := fr.eng.contracts.findExtern(pkgPathOf(f.fn), full); ec != nil {
 		return fr.applyContract(f, st, ec, nil, c.Method, append([]Val{recv}, args...), pos, name)
 	}
 	// interface-level contract
@@ -210,7 +210,7 @@ func (fr *FuncRun) callStatic(f *Frame, st *State, c *ssa.CallCommon, callee *ss
 	if v, ok := fr.specialStatic(f, st, c, callee, full, args, pos); ok {
 		return v
 	}
-	if fc := fr.eng.contracts.externs[full]; fc != nil {
+	if fc := fr.eng.contracts.findExtern(pkgPathOf(f.fn), full); fc != nil {
 		return fr.applyContract(f, st, fc, callee, nil, args, pos, callee.Name())
 	}
 	if strings.HasPrefix(pkg, repoPrefix) {
